@@ -23,6 +23,33 @@ impl AbstractInstructionSet {
         data_section: &DataSection,
         level: OptLevel,
     ) -> AbstractInstructionSet {
+        #[cfg(fuellabs_sway_verif)]
+        if let (Some(mask), OptLevel::Opt0) = (crate::verif::asm_opt_mask(), level) {
+            let mut s = self;
+            if mask & 1 != 0 {
+                s = s.const_indexing_aggregates_function(data_section);
+            }
+            if mask & 2 != 0 {
+                s = s.constant_propagate(log_nothing);
+            }
+            if mask & 4 != 0 {
+                s = s.dce();
+            }
+            if mask & 8 != 0 {
+                s = s.simplify_cfg();
+            }
+            if mask & 16 != 0 {
+                s = s.remove_sequential_jumps();
+            }
+            if mask & 32 != 0 {
+                s = s.remove_redundant_moves();
+            }
+            if mask & 64 != 0 {
+                s = s.remove_redundant_ops(log_nothing);
+            }
+            return s;
+        }
+
         match level {
             // On debug builds do a single pass through the simple optimizations
             OptLevel::Opt0 => self
